@@ -472,7 +472,8 @@ fn maxver(rng: &mut Rng, ctx: &mut Ctx) {
                 c.impl_out = match &w { Ok(o) => format!("ok {}", hex(o)), Err(e) => e.clone() };
                 if exp_refuse && w.is_ok() { c.fail("C09", format!(".slp writer accepted version {:?} > 3.16.0", v)); }
                 if !exp_refuse { if let Err(e) = &w { c.fail("C09", format!(".slp writer refused version {:?} <= 3.16.0: {}", v, e)); } }
-                let pw = std::panic::catch_unwind(std::panic::AssertUnwindSafe(|| { let mut buf = vec![]; peppi::io::peppi::write(&mut buf, g, None).map_err(|e| e.to_string()) }));
+                let wo = [None, Some(peppi::io::peppi::ser::Opts { compression: None }), Some(peppi::io::peppi::ser::Opts { compression: Some(arrow2::io::ipc::write::Compression::LZ4) }), Some(peppi::io::peppi::ser::Opts { compression: Some(arrow2::io::ipc::write::Compression::ZSTD) })][(k + k / 4) % 4].clone(); /* the verdict does not depend on the writer's options */
+                let pw = std::panic::catch_unwind(std::panic::AssertUnwindSafe(|| { let mut buf = vec![]; peppi::io::peppi::write(&mut buf, g, wo.as_ref()).map_err(|e| e.to_string()) }));
                 match pw { Err(_) => c.fail("C09", format!(".slpp writer panicked for version {:?}", v)), Ok(Ok(())) => if exp_refuse { c.fail("C09", format!(".slpp writer accepted version {:?} > 3.16.0", v)); }, Ok(Err(e)) => if !exp_refuse { c.fail("C09", format!(".slpp writer refused version {:?} <= 3.16.0: {}", v, e)); } } } }
         ctx.push(c);
         // ... and not on the sizes of the blocks: a Game Start / Game End block longer than the version's layout (a recorder that appends fields without
@@ -650,6 +651,9 @@ fn inc(rng: &mut Rng, ctx: &mut Ctx) {
                 match (k / 7) % 3 { 0 => sizes.insert(i, (e.0, e.1.wrapping_add(5))), 1 => sizes.push(e), _ => { sizes.insert(1, (e.0, 1)); sizes.push(e); } }
                 tags.push(format!("dup-table-entry:{}", (k / 7) % 3)); assemble(&r, &sizes, &body_events(&r, &Pad::default()), &[], &pad) }
             else { encode(&r) };
+        // one game in thirteen carries its Gecko list as a plain 0x3D event (a recorder that does not split a short list): both readers report the same list
+        let b = if k % 13 == 8 && k % 5 != 3 && k % 7 != 4 && r.gecko.is_none() { let pad = Pad::default(); let sz = [40u16, 512, 1, 600][(k / 13) % 4]; let mut sizes = table(&r, &pad); sizes.push((0x3D, sz));
+            let mut body = body_events(&r, &pad); let mut e = vec![0x3Du8]; e.extend(rng.bytes(sz as usize)); body.insert(0, e); tags.push(format!("inc-plain-gecko:{}", sz)); assemble(&r, &sizes, &body, &[], &pad) } else { b };
         // one game in eleven has a Game Start block longer than the newest layout (a newer recorder): the start call counts all of it
         let b = if k % 11 == 6 && k % 5 != 3 && k % 7 != 4 { let mut r2 = r.clone(); let n = r2.start_block.len().max(760) + [1usize, 4, 37, 300][(k / 11) % 4]; r2.start_block.resize(n, 0); tags.push("inc-long-start".into()); encode(&r2) } else { b };
         // one finished game in nine has raw length 0 in its header (the recorder never went back to fill it in): the event-level API is driven up to
